@@ -3,7 +3,7 @@ From Boltons Require Import Lib.Prelude Lib.C14_Text Spec.C14_Spec Model.C14_Mod
   Check.C14_Check Proofs.C14_Table Proofs.C14_Sh Proofs.C14_Cmd Proofs.C14_Int Proofs.C14_Int2 Proofs.C14_Int3
   Proofs.C14_Gzip Gen.C14_Src Proofs.C14_SrcEq Proofs.C14_SrcEqCmd
   Proofs.C14_Read Proofs.C14_SrcEqSh Proofs.C14_IntM Proofs.C14_Cor
-  Proofs.C14_SrcEqParse Proofs.C14_SrcEqCompl.
+  Proofs.C14_SrcEqParse Proofs.C14_SrcEqCompl Proofs.C14_SrcEqRanges.
 Open Scope N_scope.
 
 (* (T) obligation over the table regenerated from the source on every run:
@@ -149,6 +149,14 @@ Theorem C14_missing : forall ints start e x,
   In x (spec_missing ints start e) <-> (Z.max 0 start <= x < e)%Z /\ ~ In x ints.
 Proof. exact spec_missing_in. Qed.
 Print Assumptions C14_missing.
+
+(* (T) the definition regenerated from the CURRENT source text of int_ranges_from_int_list
+   (normalisation through parse/format, the loop over the pieces with its unpacking and the
+   two int() calls, first exception wins) is the model *)
+Theorem C14_source_int_ranges_from_int_list : forall s delim rdelim,
+  src_int_ranges_from_int_list s delim rdelim = int_ranges_from_int_list s delim rdelim.
+Proof. exact src_int_ranges_from_int_list_eq. Qed.
+Print Assumptions C14_source_int_ranges_from_int_list.
 
 Theorem C14_int_ranges : forall s delim rdelim ints,
   parse_int_list s delim rdelim = Ok ints -> all_nonneg ints = true ->
